@@ -24,6 +24,14 @@
 (*                  between, so a victim may be final (and announced) by   *)
 (*                  the time FAILED is applied                             *)
 (*   DirectUpdate(t, s) Task._update(<final state>) on a final task        *)
+(*   CbRegister(c, sc), CbUnregister(c, sc)                                *)
+(*                  TaskManager.register_callback / unregister_callback    *)
+(*                  for the callback object c and the scope sc (a task, or *)
+(*                  "*" for all tasks).  reg[c] are its scopes; clog[c][t] *)
+(*                  is what c was told about t since it covers t.  With    *)
+(*                  Bulk the dispatch is _bulk_cbs: per batch every        *)
+(*                  callback is called once with the tasks that changed    *)
+(*                  (cbLog then holds the state after each batch).         *)
 (*   ApiCall(s)     wait_tasks(state=s) / list_tasks / get_tasks between   *)
 (*                  notifications: reads only; in particular the module    *)
 (*                  level state tables stay what they are                  *)
@@ -67,6 +75,11 @@
 (*                          whose info is a dict raises in Task._update    *)
 (*   DevSubmitOtherLock     (seeded regression) submit_tasks does not hold *)
 (*                          the tasks lock: the scan may come in between   *)
+(*   DevRegisterWipes       (seeded regression) a registration drops the   *)
+(*                          other callbacks of the same scope              *)
+(*   DevBulkOverwrites      (seeded regression) bulk dispatch tells a      *)
+(*                          callback registered on several tasks about one *)
+(*                          of them only                                   *)
 (*   DevAddLastWatched      (seeded regression) of a list handed to        *)
 (*                          add_pilots only one pilot is watched           *)
 (* DevPBatchFirst / DevPFinalRaise leave the invariants of C14 intact (they *)
@@ -92,7 +105,10 @@ CONSTANTS Tasks, UnknownTasks,      \* known / unknown task ids
           Services,                 \* tasks of mode TASK_SERVICE
           Api,                      \* TRUE: ApiCall / SetInfo are part of the action set
           LateSubmit,               \* TRUE: tasks may be in the middle of their submission
-          DevWaitExtendsFinal, DevInfoMerge, DevSubmitOtherLock
+          DevWaitExtendsFinal, DevInfoMerge, DevSubmitOtherLock,
+          Cbs,                      \* application callback objects (besides the recorder)
+          Bulk,                     \* TRUE: bulk dispatch (_USE_BULK_CB)
+          DevRegisterWipes, DevBulkOverwrites
 
 VARIABLES tstate, cbLog, bound, detail, pstate, pcbLog, dead, removed,
           iso, ownOK, keepOK, unkOK, pcomplete,
@@ -103,13 +119,16 @@ VARIABLES tstate, cbLog, bound, detail, pstate, pcbLog, dead, removed,
           atOK,                     \* ghost: a callback never announced a state Task.state contradicts
           tables,                   \* states the module tables list as final beyond the real ones
           info,                     \* startup info of the tasks: "none" | "str" | "dict"
-          unreg                     \* Task objects created by submit_tasks, not yet registered
+          unreg,                    \* Task objects created by submit_tasks, not yet registered
+          reg, clog, since,         \* callback registry: scopes of each callback, what it was told
+                                    \* per task, length of cbLog when it began to cover the task
+          want                      \* ghost: the scopes the application registered and did not unregister
 
 vars == <<tstate, cbLog, bound, detail, pstate, pcbLog, dead, removed,
           iso, ownOK, keepOK, unkOK, pcomplete, dying, todo, own, added, watched,
-          nphase, nb, plan, tonote, atOK, tables, info, unreg>>
+          nphase, nb, plan, tonote, atOK, tables, info, unreg, reg, clog, since, want>>
 
-step == <<nphase, nb, plan, tonote, atOK, tables, info, unreg>>
+step == <<nphase, nb, plan, tonote, atOK, tables, info, unreg, reg, clog, since, want>>
 
 race == <<dying, todo, own>>
 adds == <<added, watched>>
@@ -147,6 +166,9 @@ Init ==
   /\ added = (IF LateAdd THEN {} ELSE Pilots) /\ watched = added
   /\ nphase = "idle" /\ nb = <<>> /\ plan = <<>> /\ tonote = <<>> /\ atOK = TRUE
   /\ tables = {} /\ info = [t \in Tasks |-> "none"]
+  /\ reg = [c \in Cbs |-> {}] /\ want = [c \in Cbs |-> {}]
+  /\ clog = [c \in Cbs |-> [t \in Tasks |-> <<>>]]
+  /\ since = [c \in Cbs |-> [t \in Tasks |-> 0]]
   \* tasks in the middle of their submission: early bound, not yet registered
   /\ unreg \in (IF LateSubmit THEN SUBSET {t \in Tasks : bound[t] # None} ELSE {{}})
   /\ iso = TRUE /\ ownOK = TRUE /\ keepOK = TRUE /\ unkOK = TRUE /\ pcomplete = TRUE
@@ -155,14 +177,28 @@ Init ==
 \* service tasks whose finalisation raises in Task._update
 Boom == IF DevInfoMerge THEN {t \in Services : info[t] = "dict"} ELSE {}
 
+\* callback c covers task t
+Covers(rg, c, t) == t \in rg[c] \/ "*" \in rg[c]
+
 Notify(b) ==
-  LET r == TResB(DevFinalRaise, Boom, b, tstate) IN
+  LET r == TResB(DevFinalRaise, Boom, b, tstate)
+      \* what a callback is told about t: per state, or (bulk) where t stands now
+      ann(t) == IF Bulk THEN (IF r.st[t] # tstate[t] /\ ~r.raised THEN <<r.st[t]>> ELSE <<>>)
+                ELSE r.cb[t]
+      \* DevBulkOverwrites: of the tasks a callback is registered on one by one,
+      \* the last one of the batch replaces the callback's entry
+      mine(c)  == {t \in reg[c] \cap Tasks : ann(t) # <<>>}
+      told(c, t) == IF Bulk /\ DevBulkOverwrites /\ mine(c) # {}
+                    THEN t = CHOOSE x \in mine(c) : TRUE
+                    ELSE Covers(reg, c, t) IN
   /\ nphase = "idle" /\ unreg = {}
   /\ tstate' = r.st
-  /\ cbLog'  = [t \in Tasks |-> cbLog[t] \o r.cb[t]]
+  /\ cbLog'  = [t \in Tasks |-> cbLog[t] \o ann(t)]
+  /\ clog'   = [c \in Cbs |-> [t \in Tasks |-> IF told(c, t) THEN clog[c][t] \o ann(t)
+                                                 ELSE clog[c][t]]]
   /\ iso'    = IsolatedB(DevFinalRaise, Boom, b, tstate)
   /\ UNCHANGED <<bound, detail, pstate, pcbLog, dead, removed, ownOK, keepOK, unkOK, pcomplete,
-                 race, adds, step>>
+                 race, adds, nphase, nb, plan, tonote, atOK, tables, info, unreg, reg, since, want>>
 
 \* the tmgr scheduler binds t to p: full task dict with 'pilot' and the next
 \* state; Task._update copies the pilot because the state moves
@@ -174,10 +210,12 @@ Bind(t, p) ==
          r == TRes(DevFinalRaise, b, tstate) IN
      /\ tstate' = r.st
      /\ cbLog'  = [u \in Tasks |-> cbLog[u] \o r.cb[u]]
+     /\ clog'   = [c \in Cbs |-> [u \in Tasks |-> IF Covers(reg, c, u) THEN clog[c][u] \o r.cb[u]
+                                                  ELSE clog[c][u]]]
      /\ iso'    = Isolated(DevFinalRaise, b, tstate)
   /\ bound' = [bound EXCEPT ![t] = p]
   /\ UNCHANGED <<detail, pstate, pcbLog, dead, removed, ownOK, keepOK, unkOK, pcomplete,
-                 race, adds, step>>
+                 race, adds, nphase, nb, plan, tonote, atOK, tables, info, unreg, reg, since, want>>
 
 \* effect of the final-pilot callback for the pilots in `calls`, and what
 \* C13 says about it (reference = KillSeq without deviations)
@@ -281,20 +319,44 @@ DirectUpdate(t, s) ==
   /\ UNCHANGED <<cbLog, bound, detail, pstate, pcbLog, dead, removed,
                  iso, ownOK, keepOK, unkOK, pcomplete, race, adds, step>>
 
+(* ---- the callback registry ------------------------------------------------------ *)
+CbRegister(c, sc) ==
+  /\ sc \notin want[c] /\ nphase = "idle" /\ unreg = {}
+  /\ LET rg == [x \in Cbs |-> IF x = c THEN reg[x] \cup {sc}
+                             ELSE IF DevRegisterWipes THEN reg[x] \ {sc} ELSE reg[x]] IN
+     /\ reg'  = rg
+     /\ want' = [want EXCEPT ![c] = @ \cup {sc}]
+     \* tasks c covers from now on: it has been told nothing about them yet
+     /\ since' = [x \in Cbs |-> [t \in Tasks |->
+                    IF x = c /\ ~Covers(want, c, t) THEN Len(cbLog[t]) ELSE since[x][t]]]
+     /\ clog'  = [x \in Cbs |-> [t \in Tasks |->
+                    IF x = c /\ ~Covers(want, c, t) THEN <<>> ELSE clog[x][t]]]
+  /\ UNCHANGED <<tstate, cbLog, bound, detail, pstate, pcbLog, dead, removed,
+                 iso, ownOK, keepOK, unkOK, pcomplete, race, adds,
+                 nphase, nb, plan, tonote, atOK, tables, info, unreg>>
+
+CbUnregister(c, sc) ==
+  /\ sc \in want[c] /\ nphase = "idle" /\ unreg = {}
+  /\ reg'  = [reg  EXCEPT ![c] = @ \ {sc}]
+  /\ want' = [want EXCEPT ![c] = @ \ {sc}]
+  /\ UNCHANGED <<tstate, cbLog, bound, detail, pstate, pcbLog, dead, removed,
+                 iso, ownOK, keepOK, unkOK, pcomplete, race, adds,
+                 nphase, nb, plan, tonote, atOK, tables, info, unreg, clog, since>>
+
 (* ---- application calls, service info, submission ----------------------------- *)
 ApiCall(s) ==
   /\ Api /\ nphase = "idle" /\ unreg = {}
   /\ tables' = IF DevWaitExtendsFinal /\ ~IsFinal(NT, s) THEN tables \cup {s} ELSE tables
   /\ UNCHANGED <<tstate, cbLog, bound, detail, pstate, pcbLog, dead, removed,
                  iso, ownOK, keepOK, unkOK, pcomplete, race, adds,
-                 nphase, nb, plan, tonote, atOK, info, unreg>>
+                 nphase, nb, plan, tonote, atOK, info, unreg, reg, clog, since, want>>
 
 SetInfo(t, k) ==
   /\ Api /\ t \in Services /\ ~IsFinal(NT, tstate[t]) /\ nphase = "idle" /\ unreg = {}
   /\ info' = [info EXCEPT ![t] = k]
   /\ UNCHANGED <<tstate, cbLog, bound, detail, pstate, pcbLog, dead, removed,
                  iso, ownOK, keepOK, unkOK, pcomplete, race, adds,
-                 nphase, nb, plan, tonote, atOK, tables, unreg>>
+                 nphase, nb, plan, tonote, atOK, tables, unreg, reg, clog, since, want>>
 
 \* the submission is over: whichever thread went first, a task whose pilot has
 \* ended by now is FAILED (the scan that came later found it)
@@ -304,14 +366,14 @@ Register ==
   /\ unreg' = {}
   /\ UNCHANGED <<tstate, cbLog, bound, detail, pstate, pcbLog, dead, removed,
                  iso, keepOK, unkOK, pcomplete, race, adds,
-                 nphase, nb, plan, tonote, atOK, tables, info>>
+                 nphase, nb, plan, tonote, atOK, tables, info, reg, clog, since, want>>
 
 (* ---- _update_tasks step by step -------------------------------------------- *)
 NBegin(b) ==
   /\ Race /\ nphase = "idle" /\ unreg = {}
   /\ nphase' = "apply" /\ nb' = b /\ plan' = <<>> /\ tonote' = <<>>
   /\ UNCHANGED <<tstate, cbLog, bound, detail, pstate, pcbLog, dead, removed,
-                 iso, ownOK, keepOK, unkOK, pcomplete, race, adds, atOK, tables, info, unreg>>
+                 iso, ownOK, keepOK, unkOK, pcomplete, race, adds, atOK, tables, info, unreg, reg, clog, since, want>>
 
 \* next entry: what _task_state_progress makes of Task.state as it is now
 NSelect ==
@@ -321,7 +383,7 @@ NSelect ==
      plan' = IF ps = <<>> THEN <<>> ELSE <<e[1], ps>>
   /\ nb' = Tail(nb)
   /\ UNCHANGED <<tstate, cbLog, bound, detail, pstate, pcbLog, dead, removed,
-                 iso, ownOK, keepOK, unkOK, pcomplete, race, adds, nphase, tonote, atOK, tables, info, unreg>>
+                 iso, ownOK, keepOK, unkOK, pcomplete, race, adds, nphase, tonote, atOK, tables, info, unreg, reg, clog, since, want>>
 
 \* Task._update for the next passed state: a no-op if the task is final by now
 NApply ==
@@ -333,13 +395,13 @@ NApply ==
      /\ tonote' = IF ok \/ DevAnnounceUnapplied THEN Append(tonote, <<u, Head(ss)>>) ELSE tonote
      /\ plan'   = IF Len(ss) = 1 THEN <<>> ELSE <<u, Tail(ss)>>
   /\ UNCHANGED <<cbLog, bound, detail, pstate, pcbLog, dead, removed,
-                 iso, ownOK, keepOK, unkOK, pcomplete, race, adds, nphase, nb, atOK, tables, info, unreg>>
+                 iso, ownOK, keepOK, unkOK, pcomplete, race, adds, nphase, nb, atOK, tables, info, unreg, reg, clog, since, want>>
 
 NToFire ==
   /\ nphase = "apply" /\ plan = <<>> /\ nb = <<>>
   /\ nphase' = IF tonote = <<>> THEN "idle" ELSE "fire"
   /\ UNCHANGED <<tstate, cbLog, bound, detail, pstate, pcbLog, dead, removed,
-                 iso, ownOK, keepOK, unkOK, pcomplete, race, adds, nb, plan, tonote, atOK, tables, info, unreg>>
+                 iso, ownOK, keepOK, unkOK, pcomplete, race, adds, nb, plan, tonote, atOK, tables, info, unreg, reg, clog, since, want>>
 
 \* one TASK_STATE callback: the application compares it with Task.state
 NFire ==
@@ -347,11 +409,13 @@ NFire ==
   /\ LET u == tonote[1][1]
          s == tonote[1][2] IN
      /\ cbLog' = [cbLog EXCEPT ![u] = Append(@, s)]
+     /\ clog'  = [c \in Cbs |-> IF Covers(reg, c, u) THEN [clog[c] EXCEPT ![u] = Append(@, s)]
+                                 ELSE clog[c]]
      /\ atOK'  = (atOK /\ Val(NT, tstate[u]) >= Val(NT, s) /\ (IsFinal(NT, s) => tstate[u] = s))
   /\ tonote' = Tail(tonote)
   /\ nphase' = IF Len(tonote) = 1 THEN "idle" ELSE "fire"
   /\ UNCHANGED <<tstate, bound, detail, pstate, pcbLog, dead, removed,
-                 iso, ownOK, keepOK, unkOK, pcomplete, race, adds, nb, plan, tables, info, unreg>>
+                 iso, ownOK, keepOK, unkOK, pcomplete, race, adds, nb, plan, tables, info, unreg, reg, since, want>>
 
 Next ==
   \/ \E b \in TBatches : Notify(b)
@@ -369,6 +433,7 @@ Next ==
   \/ \E s \in AllStates(NT) : ApiCall(s)
   \/ \E t \in Tasks, k \in {"str", "dict"} : SetInfo(t, k)
   \/ Register
+  \/ \E c \in Cbs, sc \in Tasks \cup {"*"} : CbRegister(c, sc) \/ CbUnregister(c, sc)
 
 Spec == Init /\ [][Next]_vars
 
@@ -387,6 +452,13 @@ GapsFilled == \A t \in Tasks : /\ GapsFilledLog(NT, cbLog[t] \o Pending(t))
 CbAgrees == atOK
 \* application calls leave the module level tables alone
 TablesUntouched == tables = {}
+\* every callback still registered has been told every announcement about every
+\* task it covers, once and in order, since it covers the task
+EveryCallback ==
+  \A c \in Cbs, t \in Tasks :
+     Covers(want, c, t) => clog[c][t] = SubSeq(cbLog[t], since[c][t] + 1, Len(cbLog[t]))
+\* bulk dispatch: the announcements are where the task stood after each batch
+GapsFilledBulk == \A t \in Tasks : tstate[t] = LastOr(0, cbLog[t]) \/ detail[t] # None
 BatchIsolation == iso
 FinalSticky == [][\A t \in Tasks : IsFinal(NT, tstate[t]) => tstate'[t] = tstate[t]]_vars
 
